@@ -800,7 +800,9 @@ PROPS = {
                      {"kind": "scan", "n": {"quick": 2000, "thorough": 50000}, "oracle_props": ["C17"]}]},
     "C16": {"uses_genconsts": True,
             "runs": [bind_run(proj_bind_c03, ["C16"], nq=3000), {"kind": "determ", "n": {"quick": 600, "thorough": 20000}, "oracle_props": ["C16"]},
-                     cache_run_spec(proj_cache_events, ["C16"], nq=60, nt=600)]},
+                     cache_run_spec(proj_cache_events, ["C16"], nq=60, nt=600),
+                     # ... and inside a transaction: the statement executed is the one generated for this call's arguments
+                     tx_run_spec(["C16"], compare=False, nq=200)]},
     "C18": {"uses_genconsts": True,
             "runs": [{"kind": "parse", "mode": "c01", "n": {"quick": 6000, "thorough": 500000}, "project": proj_parse_total,
                       "exhaustive": {"quick": 3, "thorough": 5}, "oracle_props": ["C18"], "rule": PARSE_RULE},
